@@ -4,10 +4,13 @@ import (
 	"fmt"
 	"os"
 	"sort"
+	"strconv"
 	"strings"
 	"testing"
 
 	"pgregory.net/rapid"
+
+	"github.com/np-guard/netpol-analyzer/pkg/netpol/eval"
 )
 
 // ---------- shared: pointwise comparison of a list report with the reference semantics (DESIGN §4.1, §4.2) ----------
@@ -303,6 +306,9 @@ func TestC01(t *testing.T) { vRunProp(t, "C01", genC01, checkC01) }
 type C02Case struct {
 	W    *World
 	Perm []int // permutation of the ANP documents for the order-independence clause
+	// Eval: the property is also observed at PolicyEngine.CheckIfAllowed - every question is asked twice, and of two
+	// replicas, so that an answer cannot depend on what was asked before
+	Eval bool `json:",omitempty"`
 }
 
 func genC02(t *rapid.T) *C02Case {
@@ -311,7 +317,7 @@ func genC02(t *rapid.T) *C02Case {
 	for i := range idx {
 		idx[i] = i
 	}
-	return &C02Case{W: w, Perm: shuffle(t, "anpperm", idx)}
+	return &C02Case{W: w, Perm: shuffle(t, "anpperm", idx), Eval: rapid.IntRange(0, 3).Draw(t, "eval") == 0}
 }
 
 // layered reports whether, for some checked point, at least two policy layers have an opinion.
@@ -386,9 +392,63 @@ func checkC02(c *C02Case, st *VStats) *VFailure {
 		}
 		st.Class("ANP documents permuted")
 	}
+	if c.Eval {
+		if f := evalAgreesRepeated(w, res, st); f != nil {
+			return f
+		}
+	}
 	if w.layered() {
 		st.NonTrivialCase(c)
 	}
+	return nil
+}
+
+// evalAgreesRepeated: CheckIfAllowed on one engine holding the world's objects gives, for every pair of workloads and
+// every checked (protocol, port), the verdict of the (already verified) list entry - on the first and on the second
+// asking, and for the first and the last replica alike.
+func evalAgreesRepeated(w *World, res *ListRes, st *VStats) *VFailure {
+	dir := w.WriteDir()
+	defer os.RemoveAll(dir)
+	pe, err := eval.NewPolicyEngineWithObjects(parseDir(dir))
+	if err != nil {
+		return vfail("NewPolicyEngineWithObjects fails where list answers: %v", err)
+	}
+	ports := portPoints(w, res)
+	n := 0
+	for i := range w.Workloads {
+		for j := range w.Workloads {
+			if i == j {
+				continue
+			}
+			wi, wj := &w.Workloads[i], &w.Workloads[j]
+			if wi.PeerString() == wj.PeerString() {
+				continue
+			}
+			cs := res.Conns[peerKey(wi.PeerString(), wj.PeerString())]
+			si, sj := evalPodNames(wi), evalPodNames(wj)
+			pairs := [][2]string{{si[0], sj[0]}, {si[0], sj[0]}, {si[len(si)-1], sj[len(sj)-1]}}
+			for _, proto := range protos {
+				for _, port := range ports {
+					want := cs.Has(proto, port)
+					for k, pr := range pairs {
+						got, err, pan := safeQuery(pe, pr[0], pr[1], proto, strconv.Itoa(port))
+						if pan != nil {
+							return &VFailure{Msg: fmt.Sprintf("CheckIfAllowed panicked: %s -> %s %s/%d: %v", pr[0], pr[1], proto, port, pan), Sig: "panic"}
+						}
+						if err != nil {
+							return vfail("CheckIfAllowed fails where list answers: %s -> %s %s/%d: %v", pr[0], pr[1], proto, port, err)
+						}
+						if got != want {
+							return vfail("CheckIfAllowed(%s, %s, %s, %d) = %v on asking #%d of this pair of workloads; the list entry %s;%s (verified against the reference semantics) says %v", pr[0], pr[1], proto, port, got, k+1, wi.PeerString(), wj.PeerString(), want)
+						}
+						n++
+					}
+				}
+			}
+		}
+	}
+	st.Points(n)
+	st.Class("observed at CheckIfAllowed too")
 	return nil
 }
 
